@@ -21,3 +21,21 @@ def increasing(xs):
 def psum(xs, k):
     """Sum of the first k elements (built in on the symbolic side: uninterpreted + recursive definition)."""
     return sum(xs[:k])
+
+
+def norm_start(s, n):
+    """slice(s, ., 1).indices(n)[0]"""
+    if s is None:
+        return 0
+    if s < 0:
+        return max(s + n, 0)
+    return min(s, n)
+
+
+def norm_stop(s, n):
+    """slice(., s, 1).indices(n)[1]"""
+    if s is None:
+        return n
+    if s < 0:
+        return max(s + n, 0)
+    return min(s, n)
